@@ -145,8 +145,8 @@ AlgoFor(tr, prev, ev) ==
 Acc0 == [sz |-> Dynamic("?"), verdict |-> "ok", at |-> 0, ndiff |-> 0, firstdiff |-> 0, ndiffnotie |-> 0,
          brs |-> {}]
 
-StepAcc(tr, a, i) ==
-  LET ev == EvAt(tr, i)
+EvStep(tr, a, i) ==
+  LET ev == tr.ev[i]
       c == IF a.verdict # "ok" THEN a.verdict ELSE Clause(tr, a.sz, ev)
       al == AlgoFor(tr, a.sz, ev)
       differs == al.br # "" /\ al.got # <<al.w, al.h>>
@@ -158,6 +158,36 @@ StepAcc(tr, a, i) ==
       ndiffnotie |-> a.ndiffnotie + (IF differs /\ ~al.tie THEN 1 ELSE 0),
       firstdiff |-> IF differs /\ a.firstdiff = 0 THEN i ELSE a.firstdiff,
       brs |-> IF al.br = "" THEN a.brs ELSE a.brs \cup {al.br}]
+
+\* the same judgement for a compact bulk call c (= SetClause of CallEv(tr, c) without building
+\* the event record; the environment is derived once)
+CallStep(tr, a, i, c) ==
+  LET d == Derive([fam |-> tr.fam, ow |-> tr.ow, oh |-> tr.oh, tc |-> c[1], tl |-> c[2], fc |-> c[3],
+                   fl |-> c[4], cw |-> tr.base.cw, ch |-> tr.base.ch, rn |-> tr.base.rn, rd |-> tr.base.rd])
+      m == [k |-> KName[c[5]], a |-> c[6], b |-> c[7]]
+      o == <<c[9], c[10]>>
+      sc == SizeClauseD(m, d, c[9], c[10])
+      cl == IF a.verdict # "ok" THEN a.verdict
+            ELSE IF c[8] # 1 THEN "set:stored-dynamic-instead-of-fixed"
+            ELSE IF sc # "ok" THEN "set:" \o sc
+            ELSE IF m.k # "AUTO" THEN "ok"
+            ELSE IF AutoUndecided(d)
+                 THEN (IF o = <<c[11], c[12]>> \/ o = <<c[13], c[14]>> THEN "ok" ELSE "auto:equals-neither-original-nor-fit")
+            ELSE IF SrcFits(d)
+                 THEN (IF o = <<c[11], c[12]>> THEN "ok" ELSE "auto:source-fits-but-differs-from-original")
+            ELSE (IF o = <<c[13], c[14]>> THEN "ok" ELSE "auto:source-does-not-fit-but-differs-from-fit")
+      r == AlgoD(m, d)
+      differs == c[8] = 1 /\ o # <<r.w, r.h>>
+  IN [sz |-> IF c[8] = 1 THEN Fixed(c[9], c[10]) ELSE Dynamic("?"),
+      verdict |-> cl,
+      at |-> IF a.verdict = "ok" /\ cl # "ok" THEN i ELSE a.at,
+      ndiff |-> a.ndiff + (IF differs THEN 1 ELSE 0),
+      ndiffnotie |-> a.ndiffnotie + (IF differs /\ ~r.tie THEN 1 ELSE 0),
+      firstdiff |-> IF differs /\ a.firstdiff = 0 THEN i ELSE a.firstdiff,
+      brs |-> a.brs \cup {r.br}]
+
+StepAcc(tr, a, i) ==
+  IF i <= Len(tr.ev) THEN EvStep(tr, a, i) ELSE CallStep(tr, a, i, tr.calls[i - Len(tr.ev)])
 
 RECURSIVE Fold(_, _, _, _)
 Fold(tr, a, i, last) == IF i > last THEN a ELSE Fold(tr, StepAcc(tr, a, i), i + 1, last)
